@@ -97,7 +97,7 @@ META = {
             "text": "TLC checks the gap-marker, keep-up and never-blocked invariants over all interleavings of sends, lag-task steps and receives for 3 subscribers; "
                     "recorded Ok/Lagged/Closed sequences of real local and remote subscribers are checked with the same formulas.",
             "note": "Bounds: 3 subscribers, capacities 1-2, 5 values in the model. Trusted: TLC, harness."},
-    "C04": {"technique": "TLA+ model of message framing / reassembly with aborted transmissions (ChmuxData, the layer the typed channels' restart logic relies on) + TLC trace validation of typed send/receive histories (TypedTrace)",
+    "C04": {"technique": "TLA+ models of the port data path (ChmuxData) and of the item framing with restart logic (RchBase: data message, port message, abort at every point) checked exhaustively with TLC + TLC trace validation of typed-channel histories (TypedTrace)",
             "text": "The port-message model is checked exhaustively with cancellation at every step (an aborted streamed item is an aborted chunked message); recorded histories of base and mpsc channels "
                     "with failing, oversized and cancelled items are checked by TLC for per-sender gap-free ordered prefix delivery, equality with the originals and suffix-only loss.",
             "note": "Bounds: see ChmuxData configs; real code with max_data 64/128 so that items straddle the buffered/streamed boundary. Trusted: TLC, harness, deterministic payload function."},
